@@ -100,8 +100,11 @@ class AccessMixin:
 
     def new_object(self, cls):
         ctx = self.ctx
+        from .core import BIRTH
         ctx.alloc += 1
-        ref = z3.IntVal(-ctx.alloc)     # fresh objects get negative references: distinct from all entry objects (>= 1)
+        ref = z3.Int(ctx.fresh_name(f"new_{cls}"))
+        ctx.assume(BIRTH(ref) == ctx.now)       # a fresh reference: differs from every object that existed before
+        ctx.now = ctx.now + 1
         if not hasattr(ctx, "fresh_refs"):
             ctx.fresh_refs = set()
         ctx.fresh_refs.add(ref.sexpr())
@@ -228,7 +231,9 @@ class AccessMixin:
             ty = cell.sym.ty
             s = sort_of(ty)
             t = cell.sym.t
-            cell.sym = SV(ty, s.mk(z3.Store(s.data(t), s.len(t), ctx.term(v, ty.args[0])), s.len(t) + 1))
+            et = ctx.term(v, ty.args[0])
+            cell.sym = SV(ty, s.mk(z3.Store(s.data(t), s.len(t), et), s.len(t) + 1))
+            ctx.assume(z3.Select(s.data(cell.sym.t), s.len(t)) == et)      # names the new element (E-matching trigger)
         self.write_back(cell)
 
     def list_extend(self, cell, other):
@@ -258,7 +263,9 @@ class AccessMixin:
                 ty = cell.sym.ty
                 s = sort_of(ty)
                 t = cell.sym.t
-                cell.sym = SV(ty, s.mk(z3.Store(s.data(t), s.len(t), ctx.term(e, ty.args[0])), s.len(t) + 1))
+                et = ctx.term(e, ty.args[0])
+                cell.sym = SV(ty, s.mk(z3.Store(s.data(t), s.len(t), et), s.len(t) + 1))
+                ctx.assume(z3.Select(s.data(cell.sym.t), s.len(t)) == et)  # names the new element (E-matching trigger)
         else:
             ty = other.sym.ty
             if cell.sym is None:
